@@ -4,6 +4,7 @@ import (
 	"bytes"
 	"encoding/json"
 	"fmt"
+	"math"
 	"sort"
 	"strings"
 	"time"
@@ -120,6 +121,26 @@ func (j *judge) windowTicks(from, to int64) []int64 {
 		out = append(out, to)
 	}
 	return out
+}
+
+// leaseFrom: the stored lease end is clock + ttl for a clock of the request's window. The sum is taken over the
+// integers: an end that does not fit into the column is the largest value the column holds ("never"), not a wrapped
+// (negative) number and not a value of another type.
+func leaseFrom(ts []int64, row core.Row, ttl int64) bool {
+	end, isInt := row["expires_at"].(int64)
+	if !isInt || ttl < 0 {
+		return false
+	}
+	for _, t := range ts {
+		want := t + ttl
+		if ttl > math.MaxInt64-t {
+			want = math.MaxInt64
+		}
+		if end == want {
+			return true
+		}
+	}
+	return false
 }
 
 func inTicks(ts []int64, v int64) bool {
@@ -487,7 +508,7 @@ func (j *judge) txTask(tx *TxRec, req *ReqRec, reqTicks []int64, c core.Change, 
 			wantClaimed := req != nil && req.Req.Kind == t_api.CreatePromiseAndTask
 			if wantClaimed {
 				ct := req.Req.CreatePromiseAndTask.Task
-				if a.I("state") != tClaimed || a.S("process_id") != ct.ProcessId || a.I("ttl") != int64(ct.Ttl) || !inTicks(reqTicks, a.I("expires_at")-a.I("ttl")) {
+				if a.I("state") != tClaimed || a.S("process_id") != ct.ProcessId || a.I("ttl") != int64(ct.Ttl) || !leaseFrom(reqTicks, a, a.I("ttl")) {
 					j.add("C08", "B1", "", "create-with-task stored task %s other than claimed by the requesting process with lease = clock + ttl: %s", c.Key, core.RowString(a))
 					j.add("C07", "T4", "", "task %s created for holder %s with ttl %d but stored as %s (lease must be clock + ttl and renew by that ttl)", c.Key, ct.ProcessId, ct.Ttl, core.RowString(a))
 				}
@@ -558,7 +579,7 @@ func (j *judge) txTask(tx *TxRec, req *ReqRec, reqTicks []int64, c core.Change, 
 			j.lease[c.Key] = a.I("expires_at")
 			cr := req.Req.ClaimTask
 			j.ttl[c.Key] = int64(cr.Ttl)
-			if a.S("process_id") != cr.ProcessId || a.I("ttl") != int64(cr.Ttl) || !inTicks(reqTicks, a.I("expires_at")-a.I("ttl")) {
+			if a.S("process_id") != cr.ProcessId || a.I("ttl") != int64(cr.Ttl) || !leaseFrom(reqTicks, a, a.I("ttl")) {
 				j.add("C07", "T4", "", "task %s claimed by %s but stored holder/lease is %s (lease must be a clock reading of the request + ttl; window %v)", c.Key, req, core.RowString(a), rel(reqTicks))
 			}
 			if ac != bc {
@@ -620,10 +641,10 @@ func (j *judge) txTask(tx *TxRec, req *ReqRec, reqTicks []int64, c core.Change, 
 			// already read the expired row; the statement promises nothing for it.)
 			j.lease[c.Key] = a.I("expires_at")
 		}
-		if want, tracked := j.ttl[c.Key]; ok && tracked && !inTicks(reqTicks, a.I("expires_at")-want) {
+		if want, tracked := j.ttl[c.Key]; ok && tracked && !leaseFrom(reqTicks, a, want) {
 			j.add("C07", "T4", "", "heartbeat of %s renewed task %s to %d, not to clock + the ttl %d its holder asked for (window %v, tx#%d)", b.S("process_id"), c.Key, a.I("expires_at")-Base, want, rel(reqTicks), tx.Seq)
 		}
-		if !ok || a.S("process_id") != b.S("process_id") || a.I("ttl") != b.I("ttl") || ac != bc || !inTicks(reqTicks, a.I("expires_at")-a.I("ttl")) {
+		if !ok || a.S("process_id") != b.S("process_id") || a.I("ttl") != b.I("ttl") || ac != bc || !leaseFrom(reqTicks, a, a.I("ttl")) {
 			j.add("C07", "T4", "", "claimed task %s modified other than by a heartbeat of its holder to clock+ttl (tx#%d %s): %s -> %s", c.Key, tx.Seq, tx.ReqId, core.RowString(b), core.RowString(a))
 		}
 	default:
@@ -655,7 +676,7 @@ func (j *judge) txLock(tx *TxRec, req *ReqRec, reqTicks []int64, c core.Change) 
 	case c.Before == nil:
 		a := c.After
 		ok := req != nil && req.Req.Kind == t_api.AcquireLock && req.Req.AcquireLock.ResourceId == c.Key && req.Req.AcquireLock.ExecutionId == a.S("execution_id") &&
-			req.Req.AcquireLock.ProcessId == a.S("process_id") && req.Req.AcquireLock.Ttl == a.I("ttl") && inTicks(reqTicks, a.I("expires_at")-a.I("ttl"))
+			req.Req.AcquireLock.ProcessId == a.S("process_id") && req.Req.AcquireLock.Ttl == a.I("ttl") && leaseFrom(reqTicks, a, a.I("ttl"))
 		if !ok {
 			j.add("C09", "L1", "", "lock %s created other than by an acquire of that execution with lease = clock + ttl (tx#%d %s): %s", c.Key, tx.Seq, tx.ReqId, core.RowString(a))
 		}
@@ -681,11 +702,11 @@ func (j *judge) txLock(tx *TxRec, req *ReqRec, reqTicks []int64, c core.Change) 
 		switch {
 		case req != nil && req.Req.Kind == t_api.AcquireLock && req.Req.AcquireLock.ResourceId == c.Key && req.Req.AcquireLock.ExecutionId == b.S("execution_id"):
 			ar := req.Req.AcquireLock
-			if a.S("process_id") != ar.ProcessId || a.I("ttl") != ar.Ttl || !inTicks(reqTicks, a.I("expires_at")-a.I("ttl")) {
+			if a.S("process_id") != ar.ProcessId || a.I("ttl") != ar.Ttl || !leaseFrom(reqTicks, a, a.I("ttl")) {
 				j.add("C09", "L1", "", "re-acquire of lock %s by its holder must set process, ttl and lease = clock + ttl: %s", c.Key, core.RowString(a))
 			}
 		case req != nil && req.Req.Kind == t_api.HeartbeatLocks && req.Req.HeartbeatLocks.ProcessId == b.S("process_id"):
-			if a.S("process_id") != b.S("process_id") || a.I("ttl") != b.I("ttl") || !inTicks(reqTicks, a.I("expires_at")-a.I("ttl")) {
+			if a.S("process_id") != b.S("process_id") || a.I("ttl") != b.I("ttl") || !leaseFrom(reqTicks, a, a.I("ttl")) {
 				j.add("C09", "L4", "", "heartbeat must only move the lease end of lock %s to clock + ttl: %s -> %s", c.Key, core.RowString(b), core.RowString(a))
 			}
 		default:
